@@ -1443,8 +1443,17 @@ impl<R: Read> Base64Decoder<R> {
             self.buffer_size = 0;
         }
         while self.buffer_size + 3 <= self.buffer.len() {
+            // reader is allowed to return less than requested, read until we
+            // have four bytes or reach the end of the input
             let mut input = [0u8; 4];
-            let size = self.read.read(&mut input)?;
+            let mut size = 0;
+            while size < input.len() {
+                let count = self.read.read(&mut input[size..])?;
+                if count == 0 {
+                    break;
+                }
+                size += count;
+            }
             if size == 0 {
                 break;
             } else if size != 4 {
